@@ -20,6 +20,7 @@ type bMon struct {
 	failed    [bMax]bool
 	outTok    [bMax]any
 	errTok    [bMax]error
+	nilOut    bool // successful items yield a nil value (a legal outcome)
 	errForm   int // 0 plain error values, 1/2 errors wrapping context.DeadlineExceeded / Canceled
 	order     [bMax * 4]int // start order (item index)
 	nstarts   int
